@@ -887,6 +887,15 @@ def r5(ctx):
     for st in walk_no_nested(init.node):
         if isinstance(st, ast.Assign) and len(st.targets) == 1 and isinstance(st.targets[0], ast.Attribute) and dotted(st.targets[0].value) == "self":
             attrs[st.targets[0].attr] = st.value
+    try:
+        io = [o for o in sym.outcomes(init.node) if o.kind in ("fall", "return")]
+    except sym.Unmodelled:
+        io = []
+    if len(io) == 1:
+        # values with the constructor's locals substituted (`key = …; self._factor_key = key` reads as `self._factor_key = …`)
+        for e in io[0].effects:
+            if isinstance(e, ast.Assign) and len(e.targets) == 1 and isinstance(e.targets[0], ast.Attribute) and dotted(e.targets[0].value) == "self":
+                attrs[e.targets[0].attr] = e.value
     ctx.look(4)
     fac = attrs.get("factors")
     ok = fac is not None and re.fullmatch(r"tuple\((dict\.fromkeys|OrderedSet)\(factors\)\)", norm(fac)) is not None
@@ -935,6 +944,8 @@ def r5(ctx):
         hexpr = hret[0].value if hret else None
         hattr = hexpr.attr if isinstance(hexpr, ast.Attribute) and dotted(hexpr.value) == "self" else None
         hsrc = attrs.get(hattr) if hattr else hexpr
+        if hsrc is not None and kv is not None and norm(kv) in norm(hsrc):
+            hsrc = ast.parse(norm(hsrc).replace(norm(kv), f"self.{key}"), mode="eval").body
         used = {n.attr for n in ast.walk(hsrc) if isinstance(n, ast.Attribute) and dotted(n.value) == "self"} if hsrc is not None else set()
         ctx.check(used == {key}, "C01.R5", "Term.__hash__ depends only on the identity key", hs.where, ctx.construct(hs, text="hash"),
                   f"hash is computed from {sorted(used)}; equality uses `{key}` — equal terms could hash differently (set semantics break)")
@@ -956,27 +967,29 @@ def r6(ctx):
     SF = "formulaic.formula.SimpleFormula"
     ro = P.method(SF, "_reorder")
     ctx.look()
-    lam = None
-    for n in walk_no_nested(ro.node):
-        if isinstance(n, ast.If) and isinstance(n.test, ast.Compare) and (P.resolve_in(ro, n.test.comparators[0]) or "").endswith("OrderingMethod.DEGREE"):
-            for s in n.body:
-                if isinstance(s, ast.Assign) and isinstance(s.value, ast.Lambda):
-                    lam = s.value
-    if lam is None:
+    # what is stored into the term list when the ordering is DEGREE (however the sorter is spelt: inline, through a local lambda, …)
+    try:
+        oo = sym.outcomes(ro.node)
+    except sym.Unmodelled as e:
+        raise AnalysisError(f"C01.R6: SimpleFormula._reorder cannot be summarised: {e}")
+    deg = [o for o in oo if any(pol and isinstance(c, ast.Compare) and len(c.ops) == 1 and isinstance(c.ops[0], ast.Is)
+                                and norm(c.comparators[0]).endswith("OrderingMethod.DEGREE") for c, pol in o.conds)]
+    if not deg:
         raise AnalysisError("C01.R6: DEGREE branch of SimpleFormula._reorder not found")
-    b = lam.body
-    ok = isinstance(b, ast.Call) and dotted(b.func) == "sorted" and len(b.args) == 1 and isinstance(b.args[0], ast.Name) \
-        and b.args[0].id == lam.args.args[0].arg and [k.arg for k in b.keywords] == ["key"]
+    stores = [[e for e in o.effects if isinstance(e, ast.Assign) and norm(e.targets[0]).startswith("self.__terms")] for o in deg]
+    ok_store = all(len(x) == 1 for x in stores)
+    b = stores[0][0].value if stores and stores[0] else None
+    ok = ok_store and all(norm(x[0].value) == norm(b) for x in stores) and isinstance(b, ast.Call) and dotted(b.func) == "sorted" and len(b.args) == 1 \
+        and norm(b.args[0]) == "self.__terms" and [k.arg for k in b.keywords] == ["key"]
     keyf = kwarg(b, "key") if isinstance(b, ast.Call) else None
     ok_key = isinstance(keyf, ast.Lambda) and isinstance(keyf.body, ast.Attribute) and keyf.body.attr == "degree" \
         and isinstance(keyf.body.value, ast.Name) and keyf.body.value.id == keyf.args.args[0].arg
     ok_key = ok_key or (keyf is not None and norm(keyf) in ("operator.attrgetter('degree')", "attrgetter('degree')"))
-    ctx.check(ok and ok_key, "C01.R6", "DEGREE ordering is a stable ascending sort keyed on Term.degree only", ro.module.line(lam),
+    ctx.check(ok and ok_key, "C01.R6", "DEGREE ordering is a stable ascending sort keyed on Term.degree only", ro.where,
               ctx.construct(ro, text="DEGREE orderer"),
-              f"orderer is `{norm(lam)}`; expected sorted(terms, key=lambda term: term.degree) with no reverse / secondary key")
+              f"under DEGREE the term list becomes `{norm(b) if b is not None else None}`; expected sorted(self.__terms, key=lambda term: term.degree) with no reverse / secondary key")
     # the orderer is applied to and stored back into the private term list
-    st = [s for s in walk_no_nested(ro.node) if isinstance(s, ast.Assign) and norm(s.targets[0]).startswith("self.__terms")]
-    ctx.check(any(norm(s.value) == "orderer(self.__terms)" for s in st), "C01.R6", "the reordered list is stored back", ro.where,
+    ctx.check(ok_store, "C01.R6", "the reordered list is stored back", ro.where,
               ctx.construct(ro, text="store"), "the result of the orderer must replace self.__terms")
     # Term.degree counts non-literal factors
     dg = P.method("formulaic.parser.types.term.Term", "degree")
@@ -1302,10 +1315,18 @@ def closer_matches_opener(ctx, rule: str):
               f"CONTEXT_CLOSERS = `{norm(tab) if tab is not None else None}`")
     st = [n for n in ast.walk(f.node) if isinstance(n, ast.Assign) and norm(n.targets[0]) == "starting_token"]
     ok = len(st) == 1 and norm(st[0].value) == "CONTEXT_CLOSERS[token.token]"
-    ifs = [n for n in ast.walk(f.node) if isinstance(n, ast.If) and isinstance(n.body[0], ast.Expr) and norm(n.body[0]) == "operator_stack.pop()"]
-    ok2 = len(ifs) == 1 and norm(ifs[0].test) in ("operator_stack and operator_stack[-1].token == starting_token",) and ifs[0].orelse and isinstance(ifs[0].orelse[0], ast.Raise)
+    # the opener is popped exactly when the stack is non-empty and its top is that opener; otherwise the formula is rejected
+    # (whether written as if/else or as a raising guard followed by the pop)
+    from ..util import atom_mapper, reach_condition, truth_table
+    am = atom_mapper({"operator_stack": 0, "operator_stack[-1].token == starting_token": 1})
+    pops = [n for n in walk_no_nested(f.node) if isinstance(n, ast.Expr) and norm(n) == "operator_stack.pop()"]
+    pc = [reach_condition(P, n, mention="starting_token") for n in pops]
+    pc = [c for c in pc if c is not None]
+    raises = [reach_condition(P, n, mention="starting_token") for n in walk_no_nested(f.node) if isinstance(n, ast.Raise)]
+    raises = [c for c in raises if c is not None]
+    ok2 = len(pc) == 1 and truth_table(pc[0], am, 2) == (False, False, False, True) and any(truth_table(c, am, 2) == (True, True, True, False) for c in raises)
     ctx.check(ok and ok2, rule, "a closing bracket only closes the opening bracket of its own kind, else the formula is rejected", f.where, ctx.construct(f, text="matching opener"),
-              f"closer test is `{norm(ifs[0].test) if ifs else None}` with starting_token = `{norm(st[0].value) if st else None}`: `(a + b]` would be accepted as grouping")
+              f"closer test is `{norm(pc[0]) if pc else None}` with starting_token = `{norm(st[0].value) if st else None}`: `(a + b]` would be accepted as grouping")
 
 
 def _first_conjunct_is_nonempty(test) -> bool:
@@ -1348,22 +1369,42 @@ def r10(ctx):
     g = P.func(U + ".insert_tokens_after")
     t = norm(g.node)
     ctx.look(3)
-    ok = "split_tokens = list(token.split(pattern, after=True))" in t and "m = pattern.search(split_token.token)" in t and \
-        "if m and m.span()[1] == len(split_token.token):" in t and "yield from tokens_to_add" in t
+    from ..expect import contains
+    SK = """
+        def insert_tokens_after(tokens, pattern, tokens_to_add, *, kind=None, join_operator=None, no_join_for_operators=True):
+            tokens = list(tokens)
+            for i, token in enumerate(tokens):
+                split_tokens = list(token.split(pattern, after=True))
+                for j, split_token in enumerate(split_tokens):
+                    %s
+                    m = pattern.search(split_token.token)
+                    if m and m.span()[1] == len(split_token.token):
+                        %s
+                        if join_operator:
+                            next_token = None
+                            if j < len(split_tokens) - 1:
+                                next_token = split_tokens[j + 1]
+                            elif i < len(tokens) - 1:
+                                next_token = tokens[i + 1]
+                            ...
+    """
+    ok, why_ = contains(P, g, SK % ("yield split_token", "yield from tokens_to_add"))
     ctx.check(ok, "C01.R10", "insert_tokens_after inserts directly after each (sub-)token that ends with the pattern", g.where, ctx.construct(g, text="insert position"),
               "tokens must be split after the pattern and the insertion made after a piece ending in the match")
-    joins = [n for n in ast.walk(g.node) if isinstance(n, ast.If) and "next_token is not None" in norm(n.test)]
+    from ..util import atom_mapper, reach_condition
+    jy = [n for n in walk_no_nested(g.node) if isinstance(n, ast.Expr) and isinstance(n.value, ast.Yield) and
+          sym.pm("Token(join_operator, kind=Token.Kind.OPERATOR)", n.value.value) is not None]
     ok = False
-    if len(joins) == 1:
-        def atom_j(e):
-            return {"next_token is not None": (0, True), "next_token.kind is not Token.Kind.OPERATOR": (1, True), "no_join_for_operators is False": (2, True),
-                    "isinstance(no_join_for_operators, set)": (3, True), "next_token.token not in no_join_for_operators": (4, True)}.get(norm(e))
-        tj = truth_table(joins[0].test, atom_j, 5)
+    if len(jy) == 1:
+        cond = reach_condition(P, jy[0], mention="next_token")
+        atom_j = atom_mapper({"next_token is not None": 0, "next_token.kind is not Token.Kind.OPERATOR": 1, "no_join_for_operators is False": 2,
+                              "isinstance(no_join_for_operators, set)": 3, "next_token.token not in no_join_for_operators": 4})
+        tj = truth_table(cond, atom_j, 5) if cond is not None else None
         want = tuple(n_ and (k or f_ or (i and m_)) for n_, k, f_, i, m_ in itertools.product([False, True], repeat=5))
-        ok = tj == want and norm(joins[0].body[0]) == "yield Token(join_operator, kind=Token.Kind.OPERATOR)"
+        ok = tj == want
     ctx.check(ok, "C01.R10", "the join operator is added iff a next token exists and it is not an excluded operator", g.where, ctx.construct(g, text="join condition"),
               "expected next ∧ (next is not an operator ∨ no_join is False ∨ (no_join is a set ∧ next ∉ no_join))")
-    nx = "next_token = split_tokens[j + 1]" in t and "next_token = tokens[i + 1]" in t and "if j < len(split_tokens) - 1:" in t and "elif i < len(tokens) - 1:" in t
+    nx, _w = contains(P, g, SK % ("pass", "pass"))
     ctx.check(nx, "C01.R10", "the next token is the following piece of the same token, else the following token", g.where, ctx.construct(g, text="next token"),
               "next-token lookup changed")
     skip = [n for n in ast.walk(g.node) if isinstance(n, ast.If) and "pattern.search(token.token)" in norm(n.test)]
@@ -1394,8 +1435,13 @@ def r10(ctx):
               ctx.construct(h, text="merge condition"), "expected not-operator ∨ (symbols ∧ first char ∉ symbols)")
     ok = "pooled_token = token.copy_with_attrs(token=pooled_token.token + token.token)" in t and "if pooled_token: yield pooled_token" in t.replace("\n", " ") \
         and t.rstrip().endswith("if pooled_token: yield pooled_token") is False or "pooled_token = token.copy_with_attrs(token=pooled_token.token + token.token)" in t
-    tail = h.node.body[-1]
-    ok2 = isinstance(tail, ast.If) and norm(tail.test) == "pooled_token" and norm(tail.body[0]) == "yield pooled_token"
+    in_loop = {id(x) for l_ in lp for x in ast.walk(l_)}
+    tails = [n for n in walk_no_nested(h.node) if isinstance(n, ast.Expr) and isinstance(n.value, ast.Yield) and n.value.value is not None
+             and norm(n.value.value) == "pooled_token" and id(n) not in in_loop]
+    ok2 = False
+    if len(tails) == 1 and lp and tails[0].lineno > lp[0].lineno:
+        tc = reach_condition(P, tails[0])
+        ok2 = tc is not None and truth_table(tc, atom_mapper({"pooled_token": 0}), 1) == (False, True)
     ctx.check("pooled_token = token.copy_with_attrs(token=pooled_token.token + token.token)" in t and ok2, "C01.R10",
               "adjacent sign tokens are concatenated in order and the last pooled token is flushed", h.where, ctx.construct(h, text="merge order"),
               "expected pooled.token + token.token and a final `if pooled_token: yield pooled_token`")
@@ -1414,7 +1460,23 @@ def r10(ctx):
     # Token.split keeps the text in order
     sp = P.method("formulaic.parser.types.token.Token", "split")
     t = norm(sp.node)
-    ok = "token=self.token[last_index:next_index]" in t and "if last_index < len(self.token):" in t and "separator.span()[1]" in t and "separator.span()[0]" in t
+    ok, _w = contains(P, sp, """
+        def split(self, pattern, after=False, before=False):
+            ...
+            last_index = 0
+            separators = pattern.finditer(self.token)
+            def get_next_token(next_index):
+                return next_index, self.copy_with_attrs(token=self.token[last_index:next_index])
+            for separator in separators:
+                if before:
+                    last_index, new_token = get_next_token(separator.span()[0])
+                    yield new_token
+                if after:
+                    last_index, new_token = get_next_token(separator.span()[1])
+                    yield new_token
+            if last_index < len(self.token):
+                yield get_next_token(len(self.token))[1]
+    """)
     ctx.check(ok, "C01.R10", "Token.split cuts the token text at the match boundaries without losing characters", sp.where, ctx.construct(sp, text="split"),
               "Token.split changed shape")
 
